@@ -10,7 +10,7 @@ Local Open Scope N_scope.
 Theorem counter_agreement :
   forall (E D : list N -> list N -> list N),
   (forall k b, length (E k b) = 16%nat) -> (forall k b, length b = 16%nat -> D k (E k b) = b) ->
-  forall counted x file, wf_sbin x -> build21_gen E counted x = Ok file ->
+  forall x file, wf_sbin x -> build21_gen E true x = Ok file ->
   exists pre bs, file = pre ++ bs /\ (length pre mod 16 = 0)%nat /\
     secs_export (E (x_dek x)) (x_mac x) (x_nonce x) (ctr_of_nonce (x_nonce x) + N.of_nat (length pre / 16)) (x_secs x) = Ok bs /\
     rom_sections (E (x_dek x)) (S (length file)) (x_mac x) (x_nonce x) file (length pre) (length file) = Some (spec_of (x_secs x)).
